@@ -42,6 +42,85 @@ CHECKS = {
                 "(witnesses are decide+kernel theorems on the faithful port).",
         'technique': 'Lean 4 theorems on the tidy compiler and on the globstar/star fragments + May/Must sandwich search',
     },
+    'C04': {
+        'text': "Two Lean models of two pieces of code — the glob walker (tied by K5) and _Match.match/_match_real/_fs_match with an "
+                "executable first-match capture semantics Re.runCap (tied by K6: globmatch/globfilter REALPATH on every entry of every "
+                "generated tree and on everything glob returned, through root_dir/cwd/dir_fd; capture spans validated against re). "
+                "Proved for all trees/patterns/flag words: under REALPATH a non-existent path never matches, a path written without "
+                "trailing separator is matched as `path/` exactly when the tree says it is a directory, relative patterns carry the "
+                "_NO_ROOT guard. The main set equality is stated in full, is FALSE on this tree (witnesses D7, D8, G3, G2 are "
+                "decide+kernel theorems through the whole pipeline) and is searched directly: glob() vs globmatch(REALPATH) on the real code.",
+        'note': TB + "PARTIAL: the capture decomposition is executable and validated, not proved; the set equality is checked per tree/pattern, "
+                "not proved. Open known findings KF-D7, KF-D8, KF-G3, KF-G2, KF-G5..G8 and those inherited from C05.",
+        'technique': 'Lean 4 side-clause theorems on a REALPATH matcher model + K5/K6 correspondence + direct two-API differential',
+    },
+    'C05': {
+        'text': "Specification Denotes (inductive, one rule per part kind) with an executable version proved sound for every fuel; `**` as a "
+                "list is exactly Below (sound and complete); what a `**` expansion of the walker model yields is exactly the one-level "
+                "listing of the directories Below the starting one. The walker model is tied to glob.py by exact result sequence and "
+                "exact os.scandir call sequence on generated real trees (K5); glob.glob is compared with the executable specification "
+                "on every tree/pattern and, in the thorough tier, the specification with bash 5.2 (validation of the spec).",
+        'note': TB + "PARTIAL: the induction over the part list is checked, not proved; full statement false on this tree (open known "
+                "findings KF-D14, KF-D17, KF-G2 with decide+kernel witnesses). Bash cannot be a Lean object: labelled validation.",
+        'technique': 'Lean 4 spec soundness + deep-walk characterisation theorems + exact-sequence correspondence + spec-vs-glob search',
+    },
+    'C12': {
+        'text': "Output invariants of the walker model for every tree, part list and flag record: iglob = glob (definitional); a result ends "
+                "in a separator when the pattern ended with one or MARK is set and the candidate is a directory, and is otherwise spelled "
+                "as the walk spelled it; under NODIR the no-directory regex is among the exclusions and rejects every directory candidate "
+                "whose path has no newline; every result is a formatted, non-excluded candidate of the walk. Root independence "
+                "(root_dir str/bytes/PathLike, dir_fd, cwd) is compared on the real code: five real runs vs one model run.",
+        'note': TB + "PARTIAL: `every result exists` is false on this tree (KF-D17) and root independence fails through dir_fd (KF-G4); "
+                "KF-D16/KF-D18 (NODIR regex) recorded with witnesses. OS behaviour of dir_fd/cwd is outside the model.",
+        'technique': 'Lean 4 output-invariant theorems on the walker model + K5 with five root mechanisms',
+    },
+    'C09': {
+        'text': "Theorems (Lean) on the FAITHFUL port of WcParse (the one tied to the code by regex-text equality), fnmatch mode with Unix "
+                "rules, for EVERY string and EVERY flag record fnmatch can pass: the pattern escape(s) compiles to a regex whose full "
+                "matches are exactly the strings equal to s character by character under the case rule in force; the same for any p "
+                "with is_magic(p, flags) False. Both are instances of literal_language: a run of literal units becomes a run of literal "
+                "items, by induction over the string through rootLoop / parse_extend / _references. escape/is_magic models tied by K3 "
+                "(all short strings over the metacharacter alphabet); API search on names and whole paths (Unix and Windows rules, "
+                "drive/UNC prefixes) with one-edit neighbours.",
+        'note': TB + "PARTIAL: path mode (duplicate/trailing separators, NODOTDIR) and the Windows drive carve-out of escape(unix=False) are "
+                "searched, not proved. Open known finding KF-D3p ('.\\n' under NODOTDIR).",
+        'technique': 'Lean 4 induction over the faithful parser model (all strings, all flags) + escape/is_magic correspondence + API search',
+    },
+    'C17': {
+        'text': "Theorems (Lean): case table for every flag record (case-insensitive exactly when CASE is off and IGNORECASE is on or "
+                "Windows rules are in force; CASE wins); FORCEWIN together with FORCEUNIX cancel in fnmatch._flag_transform for every "
+                "flag word (bit level, values generated); every regex whose inline flag scopes are case-insensitive cannot distinguish "
+                "subjects equal up to ASCII case, nor the case of a pattern literal (simulation by induction on the regex, incl. "
+                "look-aheads). The side condition (allCi) and the wrapper's case flag are evaluated per emitted regex (certificate); "
+                "K1 under the four flags, str/bytes; API search: swapcase closure, FORCE flags cancel, `/`~`\\` interchange and "
+                "Unix+IGNORECASE equivalence under FORCEWIN, drive/UNC prefixes.",
+        'note': TB + "PARTIAL: the separator-interchange and Windows=Unix+IGNORECASE clauses and drive prefixes are searched, not proved. "
+                "Case folding is ASCII (names and patterns in (?i) theorems are ASCII).",
+        'technique': 'Lean 4 simulation theorem (case closure) + flag-table/bit-level theorems + per-regex certificates + API closure search',
+    },
+    'C18': {
+        'text': "Theorems (Lean): the bytes and str POSIX tables and every str/bytes twin of the helper regexes and magic sets extracted from "
+                "the source have identical text and flags (a changed twin breaks a proof obligation); equal Re.strip implies equal full "
+                "matches for every subject; the two spellings of the full range agree on code units < 256. Per ASCII pattern the check "
+                "evaluates the certificate strip(parse bytes p) = strip(parse str p) (language equality for all Latin-1 names), K1 on bytes "
+                "patterns, and runs every API on x and encode(x): translate/compile/match/filter/escape, bytes 0x80-0xff against bracket/"
+                "POSIX forms, glob and WcMatch on str vs bytes roots (same order), TypeError on mixed types.",
+        'note': TB + "that the certificate holds for every pattern is evaluated per pattern, not proved in general. Open known finding KF-D25 "
+                "(no TypeError when the list has no inclusion pattern).",
+        'technique': 'Lean 4 generated-twin equality proofs + per-pattern language certificates + str/bytes API differential',
+    },
+    'C19': {
+        'text': "Theorems (Lean) over a model of functools.lru_cache's two critical sections (capacity/typed/key shape generated from the "
+                "source): the invariant `every cached value is the stateless value of its key` is preserved by every atomic operation, "
+                "hence every call in EVERY history returns its stateless result and so does every call of every thread under EVERY "
+                "interleaving of the atomic operations (refinement to `no cache`). WcRegexp: equality is field-wise, hash is a function "
+                "of the fields, equal objects accept the same names, rebuild(reduce m) = m, the reducer covers every slot except _hash "
+                "(field lists generated). K9: colliding pools, >256 distinct keys, warm vs cleared caches vs fresh interpreter vs the "
+                "stateless model, 8 threads with a tiny switch interval, eq/hash/pickle/copy round trips.",
+        'note': TB + "that CPython's lru_cache implements the two critical sections atomically, that WcParse keeps its state per instance and "
+                "that Immutable.__setattr__ raises are exercised by K9 only.",
+        'technique': 'Lean 4 cache invariant => refinement to the stateless function for all histories and schedules + history/thread correspondence',
+    },
     'C06': {
         'text': "Theorems (Lean) over the glob walker model (port of Glob._glob/_glob_dir/_iter, tied by exact result sequence AND "
                 "exact os.scandir call sequence on generated real trees incl. symlink cycles, stream K5): without FOLLOW and "
@@ -149,5 +228,4 @@ CHECKS = {
     },
 }
 
-NOT_APPLICABLE = {k: 'check not built yet in this session (model/proofs in progress); no claim is made' for k in
-                  [ 'C04', 'C05', 'C09', 'C12', 'C16', 'C17', 'C18', 'C19']}
+NOT_APPLICABLE = {k: 'check not delivered yet in this session (model/proofs in progress); no claim is made' for k in ['C16']}
